@@ -100,25 +100,34 @@ def judge(cases, obs, tier):
             "notes": ["the Coq model is tied to these runs through its witness schedules (Props/C06.v) and the oracle; no per-run model evaluation"]}
 
 
-def classify(case, ob, detail):
-    # hook trace of the session: a read command was counted after shutdown() had been entered, and every
-    # file whose command was counted before that is fully accounted for
-    if case["kind"] != "server" or not ob.get("late_command"):
-        return None
-    k0 = ob.get("late_from", 0) - 1          # read commands counted before the first shutdown (minus the map command)
-    if k0 < 0:
-        return None
-    # files that were still entering / leaving the limiter after shutdown() had first been entered belong to
-    # commands counted after the counter had returned to 0 (file names end in _<command index>.log)
-    late_idx = set()
-    for p in ob.get("late_files") or []:
+def _idx(paths):
+    out = set()
+    for p in paths or []:
         try:
-            late_idx.add(int(os.path.basename(p).rsplit("_", 1)[1].split(".")[0]))
+            out.add(int(os.path.basename(p).rsplit("_", 1)[1].split(".")[0]))   # file names end in _<command index>.log
         except (ValueError, IndexError):
             pass
-    if ob.get("_total", -1) < sum(sz for k, sz in enumerate(case["_sizes"][:k0]) if k not in late_idx):
+    return out
+
+
+def classify(case, ob, detail):
+    if case["kind"] != "server":
         return None
-    return "command_received_after_counter_returned_to_zero"
+    total = ob.get("_total", -1)
+    # (1) hook trace of the session: a read command was counted after shutdown() had been entered, and every
+    # file whose command was counted before that is fully accounted for
+    if ob.get("late_command"):
+        k0 = ob.get("late_from", 0) - 1          # read commands counted before the first shutdown (minus the map command)
+        late_idx = _idx(ob.get("late_files"))
+        if k0 >= 0 and total >= sum(sz for k, sz in enumerate(case["_sizes"][:k0]) if k not in late_idx):
+            return "command_received_after_counter_returned_to_zero"
+    # (2) the aggregator decided that no further lines channel would come (all read commands it knew of had finished)
+    # and files of later read commands went through the limiter afterwards; everything before is accounted for
+    if ob.get("aggregator_finished") and ob.get("files_after_aggregator"):
+        after = _idx(ob.get("files_after_aggregator"))
+        if after and total >= sum(sz for k, sz in enumerate(case["_sizes"]) if k not in after):
+            return "read_command_after_aggregator_finished"
+    return None
 
 
 def nontrivial(c):
